@@ -168,8 +168,9 @@ class Sym:
                     self.guards.append(f"({b} = (0 : Int))")     # int // 0 raises ZeroDivisionError
                     return f"(Int.fdiv {a} {b})", "int"
                 # any other mix: integers are converted to floats (true division, comparison with floats, ...)
-                if isinstance(node.op, ast.Div) and tb == "int" and ta == "int":
-                    self.guards.append(f"({b} = (0 : Int))")     # int / int with a zero divisor raises ZeroDivisionError
+                const_a = isinstance(node.left, ast.Constant) and isinstance(node.left.value, (int, float)) and not isinstance(node.left.value, bool)
+                if isinstance(node.op, ast.Div) and tb == "int" and (ta == "int" or const_a):
+                    self.guards.append(f"({b} = (0 : Int))")     # int / int (or a Python literal / int) with a zero divisor raises ZeroDivisionError
                 a = f"(ofInt {a} : α)" if ta == "int" else a
                 node_b = (f"(ofInt {b} : α)" if tb == "int" else b)
                 ops = {ast.Add: "+", ast.Sub: "-", ast.Mult: "*", ast.Div: "/"}
@@ -379,12 +380,25 @@ class Sym:
                 return fn, s.value.args[0]
         return None
 
+    def extend_of(self, s):
+        """`xs.extend([v] * k)` on a list named in spec['extends'] -> ('xs.extend', v, k): the value appended by the slice and how many times"""
+        if isinstance(s, ast.Expr) and isinstance(s.value, ast.Call) and len(s.value.args) == 1 and not s.value.keywords:
+            fn = dotted(s.value.func) or ""
+            a = s.value.args[0]
+            if fn.endswith(".extend") and fn[:-7] in self.spec.get("extends", ()) and isinstance(a, ast.BinOp) and isinstance(a.op, ast.Mult) \
+                    and isinstance(a.left, ast.List) and len(a.left.elts) == 1:
+                return fn, a.left.elts[0], a.right
+        return None
+
     def assigned(self, stmts):
         names = set()
         for s in stmts:
             for n in ast.walk(s):
                 if isinstance(n, ast.Expr) and self.append_of(n):
                     names.add(self.append_of(n)[0])
+                if isinstance(n, ast.Expr) and self.extend_of(n):
+                    names.add(self.extend_of(n)[0] + ".value")
+                    names.add(self.extend_of(n)[0] + ".count")
                 if isinstance(n, (ast.Assign, ast.AugAssign, ast.AnnAssign)):
                     for t in (n.targets if isinstance(n, ast.Assign) else [n.target]):
                         for el in (t.elts if isinstance(t, ast.Tuple) else [t]):
@@ -437,6 +451,22 @@ class Sym:
             env2 = dict(env)
             env2[name] = (fresh, "obool")
             return f"(let {fresh} : Option Bool := some {e}; {self.run(rest, env2)})"
+        if isinstance(s, ast.Expr) and self.extend_of(s):
+            name, value, count = self.extend_of(s)
+            e, t = self.expr(value, env)
+            self.need(t, "num")
+            k, tk = self.expr(count, env)
+            self.need(tk, "int")
+            self.counter += 1
+            fv, fc = f"{lean_ident(name)}_value_{self.counter}", f"{lean_ident(name)}_count_{self.counter}"
+            env2 = dict(env)
+            env2[name + ".value"] = (fv, "num")
+            env2[name + ".count"] = (fc, "int")
+            guards, self.guards = self.guards, []
+            body = f"(let {fv} : α := {e}; let {fc} : Int := {k}; {self.run(rest, env2)})"
+            for g in guards:
+                body = f"(if {g} then {self.exit_value('raise')} else {body})"
+            return body
         if isinstance(s, ast.Break):
             if not self.spec.get("allow_break"):
                 raise Untranslatable("break")
@@ -1157,7 +1187,16 @@ TARGETS += [
          params=[("good_n", "int"), ("max_n_samples", "int"), ("settings.fft_settings", "dictn")], out=["settings.fft_settings"], out_types=["dictn"]),
 ]
 
-GROUPS = ["Fft", "TimeRej", "Combine", "Azimuth", "Orient", "Windows", "Stats", "Sesame", "Fdwra", "Psd", "Nyquist", "Spatial", "Split", "Readers", "Peaks", "Trim", "ObjectIO"]
+TARGETS += [
+    # Cheng et al. (2020) weights (C11): body of the loop over the azimuths of `_compute_statistical_weights` -- the value appended for one azimuth and how
+    # many times, as a function of the number of azimuths and of the number of accepted entries of that azimuth's mask (ZeroDivisionError when it is zero)
+    dict(group="Weights", name="cheng_weights_step", file="hvsrpy/hvsr_azimuthal.py", cls="HvsrAzimuthal", func="_compute_statistical_weights",
+         descend=["hvsr"], extends=["weights"],
+         abstract={"len(self.azimuths)": ("n_azimuths_in", "int"), "int(np.sum(getattr(hvsr, mask)))": ("n_valid_in", "int")},
+         params=[("n_azimuths_in", "int"), ("n_valid_in", "int")], out=["weights.extend.value", "weights.extend.count"], out_types=["num", "int"], option=True),
+]
+
+GROUPS = ["Weights", "Fft", "TimeRej", "Combine", "Azimuth", "Orient", "Windows", "Stats", "Sesame", "Fdwra", "Psd", "Nyquist", "Spatial", "Split", "Readers", "Peaks", "Trim", "ObjectIO"]
 
 
 def emit(repo):
